@@ -254,6 +254,7 @@ def run_history(hist, rng, max_calls=400000, probe=True):
     ncalls = 0
     dead = False       # a fatal code was returned: no more judging of "continues normally"
     ended = False      # LZMA_FINISH has completed
+    runaway = False
     for o in hist["ops"]:
         if o["k"] == "update":
             f = chain_filters(o["target"], lzopt)
@@ -266,8 +267,11 @@ def run_history(hist, rng, max_calls=400000, probe=True):
         left = n
         ret = lz.OK
         while True:
-            if ncalls >= max_calls:
-                raise DriverError("too many lzma_code calls")
+            if ncalls >= max_calls or cap - op <= 0:
+                problems.append(("runaway:%s:%s" % (enc, a), "the encoder does not finish %s: %d calls, %d bytes of output for %d bytes of input"
+                                 % (a, ncalls, op, total)))
+                dead = True; runaway = True
+                break
             ncalls += 1
             if grant == "one":
                 aout = 1
@@ -276,8 +280,6 @@ def run_history(hist, rng, max_calls=400000, probe=True):
             else:
                 aout = rng.choice([1, 2, 5, 13, 100, 1000])
             aout = min(aout, cap - op)
-            if aout <= 0:
-                raise DriverError("output buffer exhausted")
             s.next_in = ib.addr + ip; s.avail_in = left
             s.next_out = ob.addr + op; s.avail_out = aout
             ret = c.code_raw(ACTNUM[a])
@@ -291,6 +293,9 @@ def run_history(hist, rng, max_calls=400000, probe=True):
             events.append(dict(e="Ret", ret=lz.retname(ret), uin=uin, uout=uout, tin=s.total_in, tout=s.total_out))
             if ret != lz.OK or (a == "RUN" and left == 0):
                 break
+        if runaway:
+            obs_ops.append(dict(k="op", a=a, ret="RUNAWAY", given=ip))
+            break
         rn = lz.retname(ret)
         rec = dict(k="op", a=a, ret=rn, given=ip)
         obs_ops.append(rec)
